@@ -20,12 +20,13 @@ MANIFEST = {
             "unselected polarisation all-zero and selected one treated as a 1-pol input; container forms agree, length-1 broadcast, "
             "mismatch <=> ValueError; PM: factor = exp(j pi u/Vpi), |total field|^2 unchanged sample by sample (signal+noise), "
             "PM(PM(x,a),b)=PM(x,a+b) for every container mix, ValueError on mismatch; LASER: |E_k|^2 = P for all recorded draws "
-            "(and = P(1+r_k) with RIN), Nyquist rejection.  Tie: Float run of the same definitions against the real devices on random "
+            "(and = P(1+r_k) with RIN), Nyquist rejection, DFT of the on-grid CW laser = single line n^2 P at df; MZM with BW = C11 bpf "
+            "after mzm, linear in the field, length preserved.  Tie: Float run of the same definitions against the real devices on random "
             "fields (1/2 pol, +-noise incl. zero-sum noise, real/int/complex dtype), every drive container kind, both pol; "
             "np.random.normal draws of LASER spied and replayed, their scale arguments compared with the model's sigma.",
     "note": "Trusted: Lean kernel + Mathlib, translator tools/extractors/optdev.py (real/complex expression -> Lean term), harness, numpy complex arithmetic = textbook formulas up to 1e-9 relative "
             "(10**x modelled as exp(x ln 10); numpy's complex division multiplies by the reciprocal), libm. "
-            "Spectral peak of the laser at df is oracle-only (FFT of the real output). BW (optional BPF) is C11's subject and not modelled. "
+            "Spectral peak of the laser at df: theorem for on-grid offsets (with C02's DFT model), oracle for the rest. BW = C11's filter model composed after mzm (coefficients spied). "
             "Axioms: propext, Classical.choice, Quot.sound.",
     "technique": "Lean 4 proof over a generic numeric model (algebra over R/C for all parameters, induction over sample lists); "
                  "Float differential correspondence run with spied random draws",
@@ -36,11 +37,17 @@ RULE = ("cases = device call sequences on a random optical field (N in {1,2,3,5,
         "all-zero, dtype complex/float/int) x drive container kind (int,float,bool,np.float64,ndarray,int ndarray,list,tuple,str,"
         "electrical_signal with/without noise, length-1 forms, mismatched lengths) x (bias,Vpi,loss_dB,ER_dB in the statement's ranges "
         "incl. ER 0/60, loss 0) x pol x/y/invalid; kinds: mzm, mzm_per (u vs u+2Vpi), mzm_er (on/off), mzm_forms / pm_forms "
-        "(one waveform through every container), pm, pm_add (PM(PM(x,a),b) vs PM(x,a+b)), laser (lw/rin/df present or not). "
+        "(one waveform through every container), pm, pm_add (PM(PM(x,a),b) vs PM(x,a+b)), laser (lw/rin/df present or not), mzm_bw "
+        "(BW given, N around the filter padding 15, scipy sections spied). "
         "non-trivial = accepted call with N>=2 and a non-zero field; distinct by (kind, n_pol, noise kind, dtype, drive kinds, N, pol)")
 PARTIAL = [
-    "LASER spectral peak at df: oracle only (FFT peak of the returned samples within one bin of df, lw=None or lw*N/fs<=0.01)",
-    "optional BW argument of MZM (composition with BPF) is not modelled here (filter: C11)",
+    "LASER spectral peak at df: THEOREM (laser_spectral_peak, through the Fourier model of C02) only for on-grid offsets "
+    "df = k0*fs/n on the grid t_j = j/fs without phase noise and without RIN (|X_k|^2 = n^2 P in bin k0 mod n, 0 elsewhere); "
+    "off-grid df (spectral leakage: the FFT peak of the returned samples lies within one bin of df) and the phase-noise case "
+    "(lw*N/fs <= 0.01) remain oracle-only",
+    "optional BW argument of MZM: modelled as C11's Filter.bpf after mzm with the sections / zi / pad length spied from scipy "
+    "(theorems mzm_bw_*: definitional composition, rows alike, length, linearity in the field, short-row ValueError); scipy's Bessel "
+    "design itself stays a parameter exactly as in C11, so nothing is claimed about the shape of the filter response",
     "floating-point rounding: theorems are over the reals; the Float run agrees with numpy to 1e-9 relative",
 ]
 ASSUMPTIONS = [
@@ -270,6 +277,19 @@ def gen_cases(rng, tier):
             cases.append({"kind": "pm_add", "field": fld,
                           "calls": [dict(dev="pm", drive=a, Vpi=Vpi), dict(dev="pm", drive=b, Vpi=Vpi, input=0),
                                     dict(dev="pm", drive=c, Vpi=Vpi)]})
+    # MZM with the optional BW argument: BPF (C11 model, sections spied from scipy) after the modulation
+    for _ in range(36 if tier == "quick" else 400):
+        n = rng.choice([16, 17, 33, 64, 100, 16, 5, 15] if tier == "quick" else [16, 17, 33, 64, 100, 257, 1000, 15, 3])
+        npol = rng.choice([1, 2])
+        nk = rng.choice(["none", "random", "random", "zerosum"])
+        fld = F.gen_field(rng, n, npol, nk, rng.choice(["complex", "complex", "float"]), rng.choice([1.0, 1e-3, 30.0]))
+        p = _params(rng)
+        sps = rng.choice([4, 8, 16, 32])
+        R = rng.choice([1e9, 2.5e9, 10e9])
+        kind = rng.choice(["float", "int", "ndarray", "esig", "esig_noise", "list", "ndarray_int"])
+        m = n if rng.random() < 0.9 else n + 1         # a few length mismatches: MZM's own check comes first
+        cases.append({"kind": "mzm_bw", "field": fld, "sps": sps, "R": R, "BW": rng.uniform(0.04, 0.95) * sps * R,
+                      "calls": [dict(dev="mzm", drive=gen_drive(rng, kind, m), pol=rng.choice(["x", "y"]), **p)]})
     # LASER
     nl = 60 if tier == "quick" else 50 * 8
     for i in range(nl):
@@ -341,6 +361,38 @@ def _run_laser(case, res):
     res["spied"] = spied
 
 
+def _run_mzm_bw(case, res):
+    """MZM(..., BW): the main call under the scipy spies of the C11 harness, then the unfiltered twin and BPF applied by hand"""
+    from opticomlib.typing import gv
+    import opticomlib.devices as dev
+    from harness.props import c11
+    gv(sps=case["sps"], R=case["R"])
+    res["fs"] = float(gv.fs)
+    x = F.build_field(case["field"])
+    call = case["calls"][0]
+    d = build_drive(call["drive"])
+    kw = dict(bias=call["bias"], Vpi=call["Vpi"], loss_dB=call["ld"], ER_dB=call["er"], pol=call["pol"])
+
+    def run(fn, *a, **k):
+        try:
+            with time_limit(30):
+                y = fn(*a, **k)
+            return y, {"status": "ok", **F.dump_signal(y)}
+        except Timeout as e:
+            return None, {"status": "timeout", "detail": str(e)}
+        except Exception as e:  # noqa
+            return None, {"status": "err", "err": exc_enum(e), "detail": repr(e)[:200]}
+    with c11._Spy(dev) as spy:
+        _, r = run(dev.MZM, x, d, BW=case["BW"], **kw)
+        spy.on = False
+        res["results"] = [r]
+        res["params"], res["remarks"] = c11._params(spy)
+        y0, r0 = run(dev.MZM, x, d, **kw)
+        res["unfiltered"] = r0
+        if y0 is not None:
+            _, res["bpf"] = run(dev.BPF, y0, case["BW"])
+
+
 def run_impl(case):
     from opticomlib.typing import gv
     res = {"status": "ok", "results": []}
@@ -349,6 +401,9 @@ def run_impl(case):
             warnings.simplefilter("ignore")
             if case["kind"] == "laser":
                 _run_laser(case, res)
+                return res
+            if case["kind"] == "mzm_bw":
+                _run_mzm_bw(case, res)
                 return res
             gv(sps=16, R=1e9)
             x = F.build_field(case["field"])
@@ -420,6 +475,20 @@ def model_requests(case, res):
             _opt(case["df"] is not None, enc_f(case["df"] or 0.0)), enc_flist(res["t"])]))
         reqs.append("mod.lasersigma " + " ".join([enc_f(case["lw"] or 0.0), enc_f(res["dt"]), enc_f(case["rin"] or 0.0), enc_f(res["fs"])]))
         return reqs
+    if case["kind"] == "mzm_bw":
+        p = res.get("params")
+        call = case["calls"][0]
+        pol = call["pol"] if call["pol"] in ("x", "y") else "other"
+        if not p:
+            # the filter was never reached (MZM's own checks failed first): the plain model must agree on the error
+            return [" ".join(["mod.mzm", pol, enc_f(call["bias"]), enc_f(call["Vpi"]), enc_f(call["ld"]), enc_f(call["er"]),
+                              enc_drive(call["drive"]), F.enc_field(case["field"]["sig"], case["field"]["noise"])])]
+        secs = [str(len(p["sos"]))]
+        for row, z in zip(p["sos"], p["zi"]):
+            secs += [enc_f(row[0]), enc_f(row[1]), enc_f(row[2]), enc_f(row[4]), enc_f(row[5]), enc_f(z[0]), enc_f(z[1])]
+        return [" ".join(["mod.mzmbw", pol, enc_f(call["bias"]), enc_f(call["Vpi"]), enc_f(call["ld"]), enc_f(call["er"]),
+                          enc_drive(call["drive"]), str(p["edge"]), " ".join(secs),
+                          F.enc_field(case["field"]["sig"], case["field"]["noise"])])]
     for i, call in enumerate(case["calls"]):
         inp = _input_rows(case, res, i)
         if inp is None:
@@ -487,6 +556,27 @@ def compare(case, res, reqs, replies):
                 if s["loc"] != 0.0 or abs(s["scale"] - s_rin) > 1e-12 * max(s_rin, 1e-300) or s["size"] != case["n"]:
                     out.append(f"laser: RIN draw normal({s['loc']},{s['scale']},{s['size']}) but model sigma {s_rin}")
         return out
+    if case["kind"] == "mzm_bw":
+        from harness.props import c11
+        r, rep = res["results"][0], replies[0]
+        out += ["model parameters: " + rm for rm in res.get("remarks") or [] if res.get("params")]
+        if r["status"] == "timeout":
+            return out + ["mzm_bw: implementation timed out"]
+        if r["status"] == "err":
+            if rep != "err " + r["err"]:
+                out.append(f"mzm_bw: implementation raised {r['err']} ({r.get('detail', '')[:80]}), model says {rep[:60]!r}")
+            return out
+        if not res.get("params"):
+            return out + ["mzm_bw: the implementation returned a signal but scipy.signal.sosfiltfilt was never called"]
+        if not rep.startswith("ok "):
+            return out + [f"mzm_bw: implementation returned a signal, model says {rep[:60]!r}"]
+        m_rows, m_noise = c11._read_sig(rep, True)
+        isig = F.c_rows(r["sig"])
+        inoise = None if r["noise"] is None else F.c_rows(r["noise"])
+        fl = case["field"]
+        scale = max(F.maxabs(F.c_rows(fl["sig"]), None if fl["noise"] is None else F.c_rows(fl["noise"])), 1e-300)
+        return out + F.diff_fields("mzm_bw", isig, inoise, [np.array(a, dtype=complex) for a in m_rows],
+                                   None if m_noise is None else [np.array(a, dtype=complex) for a in m_noise], scale)
     for i, (call, rep) in enumerate(zip(case["calls"], replies)):
         r = res["results"][i]
         if r["status"] == "skipped" or reqs[i] == "noop":
@@ -639,12 +729,47 @@ def _oracle_laser(case, res):
     return v
 
 
+def _oracle_mzm_bw(case, res):
+    """BW given: the unfiltered twin obeys the transfer function (same clauses as without BW) and the result is BPF of it"""
+    v = []
+    call = case["calls"][0]
+    r, r0 = res["results"][0], res.get("unfiltered")
+    if r["status"] == "timeout" or (r0 or {}).get("status") == "timeout":
+        return [("C06:mzm-timeout", "MZM(..., BW) did not return")]
+    if r0 is not None:
+        v += _oracle_mzm(case, 0, call, r0, (case["field"]["sig"], case["field"]["noise"]))
+    n = case["field"]["n"]
+    if r0 is None or r0["status"] != "ok":
+        if r["status"] == "ok":
+            v.append(("C06:mzm-bw-accept", "MZM accepts with BW a call it rejects without BW"))
+        return v
+    bp = res.get("bpf") or {}
+    if bp.get("status") == "err":
+        # scipy rejects rows not longer than the padding: the same must happen inside MZM
+        if not (r["status"] == "err" and r["err"] == bp["err"]):
+            v.append(("C06:mzm-bw-short", f"BPF(MZM(x)) raises {bp['err']} (N={n}) but MZM(x, BW) gives {str(r)[:80]}"))
+        return v
+    if r["status"] != "ok" or bp.get("status") != "ok":
+        v.append(("C06:mzm-bw-accept", f"MZM(x, BW) failed ({str(r)[:100]}) although BPF(MZM(x), BW) works"))
+        return v
+    sc = max(F.maxabs(F.c_rows(r0["sig"]), None if r0["noise"] is None else F.c_rows(r0["noise"])), 1e-300)
+    d = F.diff_fields("MZM(x,u,BW) vs BPF(MZM(x,u),BW)", F.c_rows(r["sig"]), None if r["noise"] is None else F.c_rows(r["noise"]),
+                      F.c_rows(bp["sig"]), None if bp["noise"] is None else F.c_rows(bp["noise"]), sc)
+    if d:
+        v.append(("C06:mzm-bw-compose", "; ".join(d)[:300]))
+    if r["npol"] != case["field"]["npol"] or r["shape"] != r0["shape"]:
+        v.append(("C06:mzm-bw-shape", f"layout changed by the filter: {r['shape']} vs {r0['shape']}"))
+    return v
+
+
 def oracle(case, res):
     v = []
     if res.get("status") != "ok":
         return [("C06:harness", f"could not build the inputs: {res.get('detail')}")] if case["kind"] != "laser" else []
     if case["kind"] == "laser":
         return _oracle_laser(case, res)
+    if case["kind"] == "mzm_bw":
+        return _oracle_mzm_bw(case, res)
     for i, call in enumerate(case["calls"]):
         r = res["results"][i]
         if r["status"] == "skipped":
@@ -703,6 +828,8 @@ def features(case, res):
     else:
         fl = case["field"]
         f += [f"npol={fl['npol']}", "noise=" + fl["noise_kind"], "dtype=" + fl["dtype"], f"N={fl['n']}"]
+        if case["kind"] == "mzm_bw":
+            f.append("BW:" + ("filtered" if res.get("params") else "filter-not-reached"))
         for c in case["calls"]:
             f.append(f"{c['dev']}:drive={c['drive']['kind']}")
             if c["dev"] == "mzm":
